@@ -50,6 +50,10 @@ CLAIMED['C02'] = dict(engine='E5', technique='Coq proof over R of transform accu
     text='Partial. Proved for trees of any depth: the context transform maps through own transform first, ancestors after (parent last); use = translate(x,y) then its transform; nested svg = viewport transform then own transform. Not a theorem: z-order preservation, shape-to-path (C09 judge) and the whole pipeline — decided on every run by rendering source and converted documents (structural grammar incl. rotate/skew, nested use, all alignments) with the independent renderer. One fix commit (viewBox equal to viewport).',
     note='Structure.v hand model validated exactly against depth_first()/resolve_use()/resolve_nested_svgs(); renderer trusted spec-side code; Skia applies the matrices (engine contract).',
     design='§7 C02')
+CLAIMED['C03'] = dict(engine='E5', technique='Coq proof relative to the engine contract of a hand model of _resolve_clip_path (fuel-indexed recursion over clipPath chains) and of the clipping step; oracle-in-the-loop differential run; spec-side renderer judge on documents with stacked / chained / use clips',
+    text='Partial. Proved relative to the contract (ops, simplify, transform, C09 normal form): the resolved clip is the union of the children under their effective clip-rule placed by child.tf . clipPath.tf . referrer CTM, intersected with the clipPath\'s own clip for chains of any length; a clipped leaf is its fill region (fill-rule) inside every clip (nonzero results). Which clips reach which leaf (ancestor stacking, use) and absence of clip-path in the output are decided on every run by the renderer judge. One fix commit (clip-rule inherited from the clipPath element); one recorded finding (clip-path on use).',
+    note='Engine contract assumed; Clips.v hand model validated with the real engine (identical commands) on 200/5000 clipPath configurations.',
+    design='§7 C03')
 PENDING = {}
 
 def main():
